@@ -670,6 +670,16 @@ func (pc *PluginCfg) ServeConfig() *plugin.ServeConfig {
 	if pc.GRPCServer {
 		sc.GRPCServer = plugin.DefaultGRPCServer
 	}
+	if pc.TLS == "static_open" {
+		// a server that presents the given chain and does not care who connects (impostor scenarios)
+		sc.TLSProvider = func() (*tls.Config, error) {
+			cert, err := tls.X509KeyPair([]byte(pc.CertPEM), []byte(pc.KeyPEM))
+			if err != nil {
+				return nil, err
+			}
+			return &tls.Config{Certificates: []tls.Certificate{cert}, ClientAuth: tls.NoClientCert, MinVersion: tls.VersionTLS12}, nil
+		}
+	}
 	if pc.TLS == "static" {
 		sc.TLSProvider = func() (*tls.Config, error) { return TLSFromPEM(pc.CertPEM, pc.KeyPEM) }
 	}
